@@ -1,32 +1,83 @@
 (* C27 — At most one cluster leader per term.
-   Pinned statements only; proofs live in theories/RaftProofs.v and RaftElect.v; the model is theories/Raft.v
-   (transcription of agdb_server/src/raft.rs; `run size evs` = the cluster of `size` nodes after the
-   adversary's event list: timer readings, deliveries, losses, duplications, client appends).
+   Pinned statements only; proofs live in theories/RaftProofs.v, RaftElect.v and RaftVote.v; the model is
+   theories/Raft.v (transcription of agdb_server/src/raft.rs; `run rv size evs` = the cluster of `size` nodes after
+   the adversary's event list: timer readings, deliveries, losses, duplications, client appends).
 
-   FULL STATEMENT (false of the faithful model, see the two `_refuted` theorems):
-     forall size evs, election_safety (c_hist (run size evs))
+   The model carries the revision `rv : raftrev` of the election code (Raft.v):
+     fix_vote_term  — vote_request adopts the request's term when it grants the vote,
+     fix_vote_match — response() counts a Vote/Ok answer only if it answers a request of the candidate's current term;
+   `rr_fixed` has both repairs, `rr_pinned` has neither (raft.rs as it was when the defects were found).  The check
+   reads the source tree it runs against and compares the code with the model of THAT revision.
+
+   FULL STATEMENT: forall size evs, election_safety (c_hist (run rv size evs))
    i.e. under any interleaving of message delivery, loss, duplication and reordering and any timer
    expirations, no two cluster nodes are ever leaders for the same term.
-   PROVED INSTEAD: `C27_partial` — the statement for every history outside the two decidable defect classes
-   `double_vote_b` (a node supports two candidates, itself included, in one term) and `stale_vote_b`
-   (a candidate counts the Ok answer to a Vote request of another term); both classes are recorded findings. *)
+   * `rr_fixed`: PROVED at full strength, `C27_election_safety` — every cluster size, every event list.
+   * every other revision: machine-checked FALSE (`C27_refuted_*`); the two defect classes `double_vote_b` (a node
+     supports two candidates, itself included, in one term) and `stale_vote_b` (a candidate counts the Ok answer to
+     a Vote request of another term) are the recorded findings the two repairs remove. *)
 From Coq Require Import NArith List.
-From Agdb Require Import Raft RaftWitness RaftProofs RaftInv RaftElect.
+From Agdb Require Import Raft RaftWitness RaftProofs RaftInv RaftElect RaftVote.
 Import ListNotations.
 Open Scope N_scope.
 
-(* the full statement is refuted: a concrete 11-event history of a 3-node cluster (corpus/C27/double_vote.txt,
-   replayed on the implementation by every run of the check) has two leaders of term 1 *)
-Theorem C27_refuted_double_vote : ~ (forall size evs, election_safety (c_hist (run size evs))).
+(* ------------------------------------------------------------------ the repaired revision: the full property *)
+
+(* for EVERY cluster size (the one-node cluster included) and EVERY adversarial event list — delivery in any order,
+   loss, duplication, arbitrary timer readings at every timer read, client appends — no two distinct nodes ever
+   become Leader with the same term.
+   Proof: inductive invariant over `run` on the ghost history of votes — a node's term never decreases and every
+   support it gives (a granted vote or its own candidacy) is for a term above its term before and at most its term
+   after, so it supports at most one candidate per term; every Leader of term t holds Ok answers to ITS Vote
+   requests of term t from a majority; two majorities intersect (`C27_quorum_intersection`). *)
+Theorem C27_election_safety : forall size evs, election_safety (c_hist (run rr_fixed size evs)).
+Proof. exact election_safety_fixed. Qed.
+Print Assumptions C27_election_safety.
+
+(* the three defect classes rooted in the election code never occur in the repaired revision: no node supports two
+   candidates in one term, no candidate counts a vote of another term, no node acknowledges an Append/Heartbeat
+   of a term below one it voted in (the class `ack-below-voted-term` of C28/C29 shares the root cause of
+   `double-vote` and disappears with the same repair) *)
+Theorem C27_fixed_no_election_classes : forall size evs,
+  size <> 1 ->
+  let h := c_hist (run rr_fixed size evs) in
+  double_vote_b h = false /\ stale_vote_b h = false /\ ack_below_vote_b h = false.
+Proof. exact fixed_no_election_classes. Qed.
+Print Assumptions C27_fixed_no_election_classes.
+
+(* non-vacuity: a run of the repaired revision that elects four leaders in four terms; the two event lists that
+   produced two leaders of term 1 before the repairs (corpus/C27) now elect exactly one; a one-node cluster *)
+Example C27_election_safety_nonvacuous :
+  leaders (c_hist (run rr_fixed w29_old_term_commit_n w29_old_term_commit)) = [(0, 1); (2, 2); (0, 3); (2, 4)] /\
+  leaders (c_hist (run rr_fixed w27_double_vote_n w27_double_vote)) = [(0, 1)] /\
+  leaders (c_hist (run rr_fixed w27_stale_vote_n w27_stale_vote)) = [(2, 1)] /\
+  leaders (c_hist (run rr_fixed 1 [ClientAppend 0 7; Tick 0 0 []])) = [(0, 1)].
+Proof. exact election_fixed_example. Qed.
+Print Assumptions C27_election_safety_nonvacuous.
+
+(* ------------------------------------------------------------------ the revision before the repairs: refuted *)
+
+(* a concrete 11-event history of a 3-node cluster (corpus/C27/double_vote.txt, replayed on the implementation by
+   every run of the check) has two leaders of term 1 *)
+Theorem C27_refuted_double_vote : ~ (forall size evs, election_safety (c_hist (run rr_pinned size evs))).
 Proof. exact C27_refuted_double_vote. Qed.
 Print Assumptions C27_refuted_double_vote.
 
 (* a second, independent cause: no node supports two candidates in one term, yet two leaders of one term
    (5 nodes, corpus/C27/stale_vote.txt): a candidate counts the Ok answer to a Vote request of an earlier term *)
 Theorem C27_refuted_stale_vote :
-  exists size evs, double_vote_b (c_hist (run size evs)) = false /\ ~ election_safety (c_hist (run size evs)).
+  exists size evs, double_vote_b (c_hist (run rr_pinned size evs)) = false /\
+                   ~ election_safety (c_hist (run rr_pinned size evs)).
 Proof. exact C27_refuted_stale_vote. Qed.
 Print Assumptions C27_refuted_stale_vote.
+
+(* both repairs are needed: the property is false of every revision other than `rr_fixed` *)
+Theorem C27_refuted_unless_both_repairs :
+  forall rv, rv <> rr_fixed -> ~ (forall size evs, election_safety (c_hist (run rv size evs))).
+Proof. exact C27_refuted_unless_both_repairs. Qed.
+Print Assumptions C27_refuted_unless_both_repairs.
+
+(* ------------------------------------------------------------------ every revision *)
 
 (* two majorities of any universe of nodes share a member (any cluster size) *)
 Theorem C27_quorum_intersection : forall (U A B : list N),
@@ -36,20 +87,20 @@ Theorem C27_quorum_intersection : forall (U A B : list N),
 Proof. exact quorum_intersection. Qed.
 Print Assumptions C27_quorum_intersection.
 
-(* election safety for every cluster size (other than the degenerate one-node cluster) and EVERY adversarial
-   event list whose history is outside the two known classes.  Proof: invariant "every Leader of term t was
-   supported for t by a majority" over `run`, then quorum intersection. *)
-Theorem C27_partial : forall size evs,
+(* election safety, conditional form, for every revision, every cluster size (other than the degenerate one-node
+   cluster) and EVERY adversarial event list whose history is outside the two classes.  Proof: invariant "every
+   Leader of term t was supported for t by a majority" over `run`, then quorum intersection. *)
+Theorem C27_partial : forall rv size evs,
   size <> 1 ->
-  double_vote_b (c_hist (run size evs)) = false ->
-  stale_vote_b (c_hist (run size evs)) = false ->
-  election_safety (c_hist (run size evs)).
+  double_vote_b (c_hist (run rv size evs)) = false ->
+  stale_vote_b (c_hist (run rv size evs)) = false ->
+  election_safety (c_hist (run rv size evs)).
 Proof. exact election_safety_partial. Qed.
 Print Assumptions C27_partial.
 
 (* non-vacuity: a run satisfying both hypotheses that elects four leaders in four terms *)
-Example C27_partial_nonvacuous :
-  let h := c_hist (run w29_old_term_commit_n w29_old_term_commit) in
+Example C27_partial_nonvacuous : forall rv,
+  let h := c_hist (run rv w29_old_term_commit_n w29_old_term_commit) in
   double_vote_b h = false /\ stale_vote_b h = false /\ leaders h = [(0, 1); (2, 2); (0, 3); (2, 4)].
 Proof. exact election_partial_example. Qed.
 Print Assumptions C27_partial_nonvacuous.
